@@ -36,6 +36,7 @@ type Relay struct {
 	KeyName     string
 	Alg         string
 	Rewrite     func(kind string, frame []byte) []byte // record-level edits done by the harness (nonsoa, trailing)
+	FinAfter    int                                    // > 0: the connection towards the client is closed right behind the FinAfter-th message forwarded to it (the FIN travels with the last octets)
 
 	// what came in and what went out, per direction ("c2s", "s2c")
 	In        map[string][][]byte
@@ -173,6 +174,10 @@ func (p *pump) RunEvent(time.Time) {
 			if !p.forward(b, inOrder) {
 				stop()
 				return
+			}
+			if p.dir == "s2c" && r.FinAfter > 0 && i+1 == r.FinAfter {
+				p.dst.Close()
+				r.K.Bump("fault.fin_right_behind_last_envelope")
 			}
 			continue
 		}
